@@ -549,7 +549,7 @@ func loadKnown() KnownFile {
 // ---------------------------------------------------------------------------
 // race logs
 
-var raceFrameRe = regexp.MustCompile(`(?m)^\s+(github\.com/onheap/eval\.[^\s(]+)\(`)
+var raceFrameRe = regexp.MustCompile(`(?m)^\s+(github\.com/onheap/eval\.\S+)\(\)\s*$`)
 
 func collectRaceLogs(dir string, m *Merged) {
 	files, _ := filepath.Glob(filepath.Join(dir, "racelog.*"))
@@ -632,6 +632,11 @@ func parentMain(p *Prop, tier string, seed int64, nprocs int) int {
 		}
 	}
 	for key, rep := range m.RaceClasses {
+		if key == "? <-> ?" {
+			// neither stack involves onheap/eval: a race inside the harness itself, not a verdict about the repository
+			m.Inconclusive = append(m.Inconclusive, "race report without any onheap/eval frame (harness-internal): "+firstLines(rep, 4))
+			continue
+		}
 		m.Viol = append(m.Viol, Violation{Sig: "race/" + key, Case: -1, Phase: "race", Detail: rep})
 		m.SigCount["race/"+key]++
 	}
